@@ -54,6 +54,8 @@ ASSUMPTIONS = [
     "nested bit_concat properties are flattened by T2 (inner setters only see masked values)",
 ]
 
+CHECK_WITHOUT_BUILD = True     # a broken proof still gets the failing-input search on the real code
+
 ISAS = ["arm", "thumb", "avr", "m68k", "mcs6500", "microblaze", "mips", "msp430", "or1k", "riscv", "stm8", "x86_64", "xtensa", "misc"]
 
 
@@ -231,7 +233,8 @@ RELOCS = {
     ("misc", "absaddr64"): dict(bias=0, bits=65, data="0000000000000000", absolute=True),
 }
 # types whose apply ORs into the bytes: the property is evaluated on a clear field only
-OR_TYPES = {("arm", "ldr_imm12"), ("arm", "adr_imm12"), ("thumb", "b_imm11_imm6")}
+OR_TYPES = {("arm", "ldr_imm12"), ("arm", "adr_imm12"), ("thumb", "b_imm11_imm6"),
+            ("thumb", "bl_imm11")}   # bl_imm11 relies on J1 = J2 = 1 in the emitted instruction
 NO_SPEC = {("arm", "rel8")}      # ArmToken.imm8 branch: no such A32 instruction; correspondence only
 HILO = {("riscv", "abs32_imm20"), ("riscv", "abs32_imm12"), ("riscv", "rel_imm20"), ("riscv", "rel_imm12")}
 
@@ -511,6 +514,14 @@ def check_instrs(ctx, tabs):
                 ctx.count("encode_" + ("ok" if enc is not None else impl[4:]))
                 decl_here = declarative and all(
                     not (tables_row(rows_by_cls, type(nl)) or {}).get("user_patterns_overridden", True) for nl in ins.non_leaves)
+                if decl_here and enc is not None:
+                    bad = clobbered_operand(ins)
+                    ctx.count("eval_operand_field_readback")
+                    if bad is not None:
+                        ctx.fail(f"{isa}.{row['name']}:operand-field-clobbered",
+                                 f"{isa} {row['name']}: after set_all_patterns field {bad[0]} holds {bad[2]} but the operand value is {bad[1]} "
+                                 f"(mod 2^{bad[3]} = {bad[1] % (1 << bad[3])})",
+                                 {"isa": isa, "class": row["name"], "text": str(ins), "field": bad[0], "value": bad[1]})
                 if decl_here:
                     fl = flat_of(ins, names)
                     if fl is not None:
@@ -550,6 +561,27 @@ def check_instrs(ctx, tabs):
     ctx.extra_cov["declarative_classes_covered_by_table_theorem"] = cov_total
     if reqs:
         ctx.sample({"request": reqs[0], "impl": meta[0][2], "model": out[0]})
+
+
+def clobbered_operand(ins):
+    """the conclusion of `declarative_operand_decodes` evaluated on the real code: after set_all_patterns every
+    field written from an operand holds v mod 2^w.  Returns (field, v, raw, w) of the first violation."""
+    from ppci.arch.encoding import Constructor, VariablePattern
+    tokens = ins.get_tokens()
+    ins.set_all_patterns(tokens)
+    for nl in ins.non_leaves:
+        for p in Constructor.dict_to_patterns(type(nl).patterns):
+            if isinstance(p, VariablePattern):
+                v = p.get_value(nl)
+                raw = tokens.get_field(p.field)
+                w = None
+                for t in tokens.tokens:
+                    if hasattr(t, p.field):
+                        w = getattr(type(t), p.field)._bitsize
+                        break
+                if w is not None and raw != v % (1 << w):
+                    return (p.field, v, raw, w)
+    return None
 
 
 def tables_row(rows_by_cls, cls):
@@ -594,6 +626,13 @@ def check_corpus(ctx, tabs):
 
 
 def check(ctx):
+    if ctx.build_ok is False:
+        try:                                  # the driver does not depend on Props; it may still run
+            if ctx.driver("C10", ["wf misc"]) != ["ok true"]:
+                raise common.BrokenCheck("driver")
+        except Exception:  # noqa
+            ctx.note("proofs do not build and the driver cannot run: no failing-input search possible")
+            return
     tabs = get_tabs(ctx)
     if tabs["failed_imports"]:
         ctx.note("modules that do not import on this tree (skipped): " + "; ".join(f"{m}: {e}" for m, e in tabs["failed_imports"]))
